@@ -59,6 +59,52 @@ impl<T> SyncResultSender<T> {
 }
 
 #[cfg_attr(not(feature="threaded"), allow(dead_code))]
+impl<T> SyncResultSender<T> {
+
+    /// Sets the operation result unless one has already been delivered.
+    pub(crate) fn apply_if_unset(&self, value: T) {
+        let mut current_value = self.result_lock.lock().unwrap();
+        if current_value.is_none() {
+            *current_value = Some(value);
+            self.result_signal.notify_all();
+        }
+    }
+}
+
+/// Delivers an operation's result exactly once.  If the operation is dropped without ever having
+/// been completed (for example it was still sitting in the operation channel when the client's
+/// event loop exited), the result is a client-closed error rather than nothing at all.
+#[cfg_attr(not(feature="threaded"), allow(dead_code))]
+pub(crate) struct CompletionGuard<R> {
+    complete: Option<Box<dyn Fn(GneissResult<R>) + Send + Sync>>,
+    armed: Arc<std::sync::atomic::AtomicBool>
+}
+
+#[cfg_attr(not(feature="threaded"), allow(dead_code))]
+impl<R> CompletionGuard<R> {
+    pub(crate) fn new(complete: Box<dyn Fn(GneissResult<R>) + Send + Sync>) -> (CompletionGuard<R>, Arc<std::sync::atomic::AtomicBool>) {
+        let armed = Arc::new(std::sync::atomic::AtomicBool::new(true));
+        (CompletionGuard { complete: Some(complete), armed: armed.clone() }, armed)
+    }
+
+    pub(crate) fn complete(mut self, result: GneissResult<R>) {
+        if let Some(complete) = self.complete.take() {
+            complete(result);
+        }
+    }
+}
+
+impl<R> Drop for CompletionGuard<R> {
+    fn drop(&mut self) {
+        if let Some(complete) = self.complete.take() {
+            if self.armed.load(std::sync::atomic::Ordering::SeqCst) {
+                complete(Err(crate::error::GneissError::new_client_closed()));
+            }
+        }
+    }
+}
+
+#[cfg_attr(not(feature="threaded"), allow(dead_code))]
 impl<T> SyncResultReceiver<T> {
 
     pub(crate) fn new(result_lock: Arc<Mutex<Option<T>>>, result_signal: Arc<Condvar>) -> SyncResultReceiver<T> {
